@@ -141,8 +141,8 @@ func placeBlock(g *graph.DGraph, layerMaxLen int, spacing float64, blockmax, blo
 			case k < l.Len()-1:
 				// consider current and successive nodes
 				cur, suc := l.Nodes[k], l.Nodes[k+1]
-				// shift if there is an overlap
-				if xcoord[cur] > xcoord[suc] {
+				// shift if there is an overlap, i.e. if the successor starts before the end of the current block plus spacing
+				if xcoord[suc] < xcoord[cur]+blockwidth[roots[cur]]+spacing {
 					xcoord[suc] = xcoord[cur] + blockwidth[roots[cur]] + spacing
 					shift = true
 					blockmax[roots[l.Nodes[k+1]]] = max(blockmax[roots[l.Nodes[k+1]]], xcoord[l.Nodes[k+1]])
